@@ -211,33 +211,47 @@ def scrubWarning (patText : String) : LogRec :=
   ⟨"WARNING", ("Anonymizing sensitive info in lines like \"" ++ patText ++
     "\" is currently unsupported, so removing this line completely").toList⟩
 
-/-- the loop over one group of related patterns -/
+/-- what one pattern of a group does to the line -/
+inductive StepRes where
+  | noMatch
+  | scrubbed (out : List Char) (w : LogRec)
+  | replaced (out : List Char) (lk : Lookup)
+
+/-- the body of the loop over one group of related patterns, for one pattern -/
+def applyOne (x : Ext) (fs : List Re) (salt : List Char) (e : (Re × Option Nat × Option Nat) × String)
+    (line : List Char) (lk : Lookup) : Except Err StepRes :=
+  match search e.1.1 line with
+  | .oof => .error .outOfFuel
+  | .none => .error .outOfFuel
+  | .ok none => .ok .noMatch
+  | .ok (some mt) =>
+    match e.1.2.1 with
+    | none =>
+      match sub e.1.1 (fun _ => scrubbedMessage) line with
+      | .ok out => .ok (.scrubbed out (scrubWarning e.2))
+      | _ => .error .outOfFuel
+    | some n =>
+      let prefixTxt := match e.1.2.2 with
+        | some p => (mt.group p).getD []
+        | none => []
+      match anonymizeValue x fs salt ((mt.group n).getD []) lk with
+      | .error err => .error err
+      | .ok (av, lk') =>
+        match sub e.1.1 (fun _ => prefixTxt ++ av) line with
+        | .ok out => .ok (.replaced out lk')
+        | _ => .error .outOfFuel
+
+/-- the loop over one group of related patterns (`break` after a scrub) -/
 def applyGroup (x : Ext) (fs : List Re) (salt : List Char) :
     List ((Re × Option Nat × Option Nat) × String) → List Char → Lookup → Bool → List LogRec →
     Except Err (List Char × Lookup × Bool × List LogRec)
   | [], line, lk, found, logs => .ok (line, lk, found, logs)
-  | ((re, sens, pfx), txt) :: rest, line, lk, found, logs =>
-    match search re line with
-    | .oof => .error .outOfFuel
-    | .none => .error .outOfFuel
-    | .ok none => applyGroup x fs salt rest line lk found logs
-    | .ok (some mt) =>
-      match sens with
-      | none =>
-        match sub re (fun _ => scrubbedMessage) line with
-        | .ok out => .ok (out, lk, true, logs ++ [scrubWarning txt])     -- `break`
-        | _ => .error .outOfFuel
-      | some n =>
-        let prefixTxt := match pfx with
-          | some p => (mt.group p).getD []
-          | none => []
-        match anonymizeValue x fs salt ((mt.group n).getD []) lk with
-        | .error e => .error e
-        | .ok (av, lk') =>
-          let anon := prefixTxt ++ av
-          match sub re (fun _ => anon) line with
-          | .ok out => applyGroup x fs salt rest out lk' true logs
-          | _ => .error .outOfFuel
+  | e :: rest, line, lk, found, logs =>
+    match applyOne x fs salt e line lk with
+    | .error err => .error err
+    | .ok .noMatch => applyGroup x fs salt rest line lk found logs
+    | .ok (.scrubbed out w) => .ok (out, lk, true, logs ++ [w])
+    | .ok (.replaced out lk') => applyGroup x fs salt rest out lk' true logs
 
 def applyGroups (x : Ext) (fs : List Re) (salt : List Char) :
     List (List ((Re × Option Nat × Option Nat) × String)) → List Char → Lookup → List LogRec →
